@@ -274,7 +274,7 @@ def gen_cases(ctx, n):
 
 
 def run(ctx):
-    n = ctx.budget(700, 3000)
+    n = ctx.budget(700, 6000)
     gens = gen_cases(ctx, n)
     cases, meta = [], []
     dist = {"mutation": {}, "kinds": {}, "depth": {}, "typeerror_values": 0, "cyclic": 0, "partial_order": 0,
